@@ -166,6 +166,10 @@ theorem fup_proof_irrelevant (hf : HashFn α H) (s : Segment α H) (pr : List H)
     (bm : Option (Nat → Bool)) :
     Segment.firstUnprunedParent hf { s with proof := pr } size bm = s.firstUnprunedParent hf size bm := by
   unfold Segment.firstUnprunedParent Segment.root
+  show fupWith { s with proof := pr } size bm
+      (if s.id.unprunedSize size = 0 then .err .nonExistent
+       else rootWith hf { s with proof := pr } size bm (s.id.positions size) (s.id.full size) (s.id.peaksIn size))
+      (s.id.posRange size).2 = _
   rw [rootWith_congr hf { s with proof := pr } s rfl rfl rfl rfl,
     fupWith_congr { s with proof := pr } s rfl rfl]
 
